@@ -41,6 +41,15 @@ Jobs(C)        == {n \in Nodes(C) : IsJob(C, n)}
 Kids(C, s)     == {k \in Nodes(C) : C.parent[k] = s}
 Raising(C, s)  == C.crit[s] /\ ~(s = Root /\ C.pure)
 
+(* configurations read from JSON (arrays become sequences) *)
+RangeOf(q) == {q[i] : i \in 1..Len(q)}
+CfgOf(J) ==
+  [ n |-> J.n, pure |-> J.pure, kind |-> J.kind, parent |-> J.parent,
+    req |-> [i \in 1..J.n |-> RangeOf(J.req[i])],
+    crit |-> J.crit, forever |-> J.forever, win |-> J.win, tmo |-> J.tmo,
+    stmo |-> J.stmo, dur |-> J.dur, out |-> J.out, sdur |-> J.sdur,
+    cdur |-> J.cdur, horizon |-> J.horizon ]
+
 Min(T) == CHOOSE t \in T : \A u \in T : t <= u
 Max(T) == CHOOSE t \in T : \A u \in T : t >= u
 
